@@ -107,6 +107,12 @@ class T:
                 ex.on_division(a, b)
             r = a.v / b.v
         ex = _ex()
+        if ex is not None and getattr(ex, 'havoc_add', False) and op == 'add':
+            # binary64 addition abstracted to ANY value not below either (non-negative) operand:
+            # fl(a + b) >= max(a, b) for a, b >= 0 is all that is assumed of the rounded sum
+            h = ex.fresh('fladd')
+            ex.add(z3.And(h >= a.v, h >= b.v))
+            return T(h)
         r = T(z3.simplify(r))
         if ex is not None and getattr(ex, 'rounded', False) and op in ('add', 'sub'):
             eta = ex.fresh('eta')
